@@ -32,7 +32,7 @@ func extensionOps(ch *Chain, r *hx.Rng) []*ref.Op {
 }
 
 func checkC04(c *hx.Ctx) {
-	c.Rule("(a) base history ending in an applied deactivate, extended by 1-8 later-anchored or unpublished operations drawn from: valid updates/recovers/deactivates by every key that ever existed in the chain, duplicate creates, forgeries; result must stay deactivated/empty/no commitments; (b) the document handler with its default decorator must refuse update, recover and deactivate requests for that DID and record no writer Add / unpublished Put; (c) history containing a recover at (t,n), extended by valid updates anchored before (t,n) signed by the key the recover newly commits to or by older keys: result unchanged; non-trivial = extension contains at least one validly signed operation")
+	c.Rule("(a) base history ending in an applied deactivate, extended by 1-8 later-anchored or unpublished (time stamp before or after the deactivate) operations drawn from: valid updates/recovers/deactivates by every key that ever existed in the chain, duplicate creates, forgeries; result must stay deactivated/empty/no commitments; (b) the document handler with its default decorator must refuse update, recover and deactivate requests for that DID and record no writer Add / unpublished Put; (c) history containing a recover at (t,n), extended by valid updates anchored before (t,n) signed by the key the recover newly commits to or by older keys: result unchanged; non-trivial = extension contains at least one validly signed operation")
 	nCases := c.N(500, 6000)
 	root := c.Rng("cases")
 	seeds := make([]uint64, nCases)
@@ -62,8 +62,15 @@ func checkC04(c *hx.Ctx) {
 				if e.Authorised {
 					valid++
 				}
-				if r.Chance(1, 5) {
-					E = append(E, Place(e, uint64(9000+k), 0, "", p.GenesisTime))
+				if r.Chance(1, 4) {
+					// unpublished (no canonical reference); its time stamp is the intake time, which may lie before or after the
+					// anchoring time of the deactivate - published operations take precedence either way
+					ut := uint64(9000 + k)
+					if r.Bool() {
+						ut = uint64(990 + r.Intn(int(lastT)-980))
+					}
+					E = append(E, Place(e, ut, uint64(k), "", p.GenesisTime))
+					c.Count("unpublished_extension_ops")
 				} else {
 					t, n, id := alloc.take(r, lastT, lastT+40)
 					if t == lastT && n <= H[len(H)-1].Number {
@@ -92,10 +99,18 @@ func checkC04(c *hx.Ctx) {
 			}
 			// ---- (b) intake refusal through the real DocumentHandler
 			store := hx.NewOpStore()
-			store.Set(ch.U.Suffix, ToAnchored(ch.U.Suffix, all))
-			proc := processor.New("verif", store, pc)
+			var pubOps, unpubOps []*ref.Op
+			for _, o := range all {
+				if o.Published() {
+					pubOps = append(pubOps, o)
+				} else {
+					unpubOps = append(unpubOps, o)
+				}
+			}
+			store.Set(ch.U.Suffix, ToAnchored(ch.U.Suffix, pubOps))
+			unpub := &recUnpub{ops: ToAnchored(ch.U.Suffix, unpubOps)}
+			proc := processor.New("verif", store, pc, processor.WithUnpublishedOperationStore(unpub))
 			w := &hx.RecWriter{}
-			unpub := &recUnpub{}
 			dh := dochandler.New(hx.Namespace, nil, intakePC, w, proc, hx.NopMetrics{}, dochandler.WithUnpublishedOperationStore(unpub, allOpTypes))
 			for _, e := range pool {
 				if e.Type == "create" || !e.Authorised {
@@ -190,6 +205,7 @@ func checkC04(c *hx.Ctx) {
 		}
 	})
 	c.Floor("deactivated_histories", 100)
+	c.Floor("unpublished_extension_ops", 50)
 	c.Floor("recover_histories", 100)
 	c.Floor("intake_attempts:update", 50)
 	c.Floor("intake_attempts:recover", 50)
